@@ -72,6 +72,7 @@ type meTable struct {
 }
 
 type meEnv struct {
+	opts   storage.TSDBOpts[*tsTable, option]
 	dir    string
 	db     storage.TSDB[*tsTable, option]
 	m      *measure
@@ -107,6 +108,7 @@ func newMeEnv(schema *databasev1.Measure, rules []*databasev1.IndexRule) (*meEnv
 		DisableRetention: true, DisableRotation: true, SeriesIndexFlushTimeoutSeconds: 1,
 		Option: option{mergePolicy: newDefaultMergePolicyForTesting(), protector: protector.Nop{}},
 	}
+	e.opts = opts
 	db, err := storage.OpenTSDB(common.SetPosition(context.Background(), func(p common.Position) common.Position {
 		p.Module, p.Database = "measure", meGroup
 		return p
